@@ -41,8 +41,8 @@ PROPS = {
         "assumptions": COMMON_ASSUMPTIONS + [
             "single logging thread, synchronous write modes, Cleanup::Never (as in the statement)",
         ],
-        "quick": box(16, 400, 25, floor_evaluations=200, floor_shapes=20),
-        "thorough": box(16, 12000, 420, floor_evaluations=2000, floor_shapes=50),
+        "quick": box(16, 1500, 25, floor_evaluations=200, floor_shapes=20),
+        "thorough": box(16, 48000, 420, floor_evaluations=2000, floor_shapes=50),
     },
     "C08": {
         "level": "exploration",
@@ -63,7 +63,7 @@ PROPS = {
                 "(driver level, naming, criterion kind, N, write-mode kind, line ending, start "
                 "state, rotation bucket)",
         "assumptions": COMMON_ASSUMPTIONS,
-        "quick": box(16, 500, 25, floor_evaluations=200, floor_shapes=20),
+        "quick": box(16, 1500, 25, floor_evaluations=200, floor_shapes=20),
         "thorough": box(16, 15000, 420, floor_evaluations=2000, floor_shapes=50),
     },
     "C06": {
@@ -89,8 +89,8 @@ PROPS = {
                 "mode, time zone, use_utc, same-second restart seen, mutation seen, rotation bucket)",
         "assumptions": COMMON_ASSUMPTIONS + ["time zones: UTC, Asia/Kolkata, America/Caracas, "
                                              "Asia/Kathmandu (fixed offsets), chosen per shard"],
-        "quick": box(16, 400, 25, floor_evaluations=200, floor_shapes=20),
-        "thorough": box(16, 12000, 420, floor_evaluations=2000, floor_shapes=50),
+        "quick": box(16, 1500, 25, floor_evaluations=200, floor_shapes=20),
+        "thorough": box(16, 72000, 420, floor_evaluations=2000, floor_shapes=50),
     },
     "C07": {
         "level": "exploration",
@@ -115,8 +115,8 @@ PROPS = {
                 "strategy with limits bucketed, suffix class, thread that runs the cleanup, "
                 "criterion, same-second files seen, restart seen)",
         "assumptions": COMMON_ASSUMPTIONS,
-        "quick": box(16, 400, 25, floor_evaluations=200, floor_shapes=20),
-        "thorough": box(16, 12000, 420, floor_evaluations=2000, floor_shapes=50),
+        "quick": box(16, 1200, 25, floor_evaluations=200, floor_shapes=20),
+        "thorough": box(16, 40000, 420, floor_evaluations=2000, floor_shapes=50),
     },
     "C09": {
         "level": "exploration",
@@ -142,8 +142,8 @@ PROPS = {
                 "offset, utc/local, append-restart seen, rotation bucket)",
         "assumptions": COMMON_ASSUMPTIONS + ["time zones: UTC, Asia/Kolkata, America/Caracas, "
                                              "Asia/Kathmandu (fixed offsets), chosen per shard"],
-        "quick": box(16, 400, 25, floor_evaluations=200, floor_shapes=20),
-        "thorough": box(16, 12000, 420, floor_evaluations=2000, floor_shapes=50),
+        "quick": box(16, 1500, 25, floor_evaluations=200, floor_shapes=20),
+        "thorough": box(16, 120000, 420, floor_evaluations=2000, floor_shapes=50),
     },
     "C15": {
         "level": "exploration",
@@ -163,7 +163,7 @@ PROPS = {
                 "on/off, line ending, format, slowed async writer, trigger present, one-byte window, "
                 "file-count bucket)",
         "assumptions": COMMON_ASSUMPTIONS,
-        "quick": box(16, 300, 25, floor_evaluations=200, floor_shapes=20),
+        "quick": box(16, 400, 25, floor_evaluations=200, floor_shapes=20),
         "thorough": box(16, 8000, 420, floor_evaluations=2000, floor_shapes=50),
     },
     "C02": {
@@ -185,8 +185,8 @@ PROPS = {
                 "disabled points; distinct = shape keys (route, observer kind, number of names, "
                 "default present, text filter present, number of additional writers)",
         "assumptions": COMMON_ASSUMPTIONS,
-        "quick": box(16, 1500, 25, floor_evaluations=500, floor_shapes=20),
-        "thorough": box(16, 60000, 420, floor_evaluations=5000, floor_shapes=40),
+        "quick": box(16, 4000, 25, floor_evaluations=500, floor_shapes=20),
+        "thorough": box(16, 240000, 420, floor_evaluations=5000, floor_shapes=40),
     },
     "C05": {
         "level": "exploration",
@@ -203,8 +203,8 @@ PROPS = {
                 ">= 2 comparisons; distinct = (length bucket, max stack depth, malformed string "
                 "seen, pop on empty stack seen)",
         "assumptions": COMMON_ASSUMPTIONS,
-        "quick": box(16, 400, 25, floor_evaluations=200, floor_shapes=10),
-        "thorough": box(16, 12000, 420, floor_evaluations=2000, floor_shapes=20),
+        "quick": box(16, 1500, 25, floor_evaluations=200, floor_shapes=10),
+        "thorough": box(16, 72000, 420, floor_evaluations=2000, floor_shapes=20),
     },
     "C12": {
         "level": "exploration",
@@ -273,8 +273,8 @@ PROPS = {
                 ">= 2 records were logged; distinct = (driver level, write mode, line ending, format, "
                 "rename seen, remove seen, number of resets bucket, rotation involved)",
         "assumptions": COMMON_ASSUMPTIONS,
-        "quick": box(16, 500, 25, floor_evaluations=200, floor_shapes=20),
-        "thorough": box(16, 12000, 420, floor_evaluations=2000, floor_shapes=40),
+        "quick": box(16, 1500, 25, floor_evaluations=200, floor_shapes=20),
+        "thorough": box(16, 90000, 420, floor_evaluations=2000, floor_shapes=40),
     },
     "C14": {
         "level": "exploration",
@@ -294,8 +294,8 @@ PROPS = {
                 "pairs of runs; non-trivial iff at least one foreign file exists and at least 2 "
                 "family files were produced; distinct = (naming, cleanup, class, name-part mask)",
         "assumptions": COMMON_ASSUMPTIONS,
-        "quick": box(16, 400, 25, floor_evaluations=200, floor_shapes=20),
-        "thorough": box(16, 12000, 420, floor_evaluations=2000, floor_shapes=50),
+        "quick": box(16, 1500, 25, floor_evaluations=200, floor_shapes=20),
+        "thorough": box(16, 60000, 420, floor_evaluations=2000, floor_shapes=50),
     },
     "C16": {
         "level": "exploration",
@@ -320,8 +320,8 @@ PROPS = {
                 "resp. (absolute/relative, path shape)",
         "assumptions": COMMON_ASSUMPTIONS + ["the try_from cases change the process' working "
                                              "directory (cases of a shard run sequentially)"],
-        "quick": box(16, 500, 25, floor_evaluations=200, floor_shapes=20),
-        "thorough": box(16, 12000, 420, floor_evaluations=2000, floor_shapes=50),
+        "quick": box(16, 1500, 25, floor_evaluations=200, floor_shapes=20),
+        "thorough": box(16, 60000, 420, floor_evaluations=2000, floor_shapes=50),
     },
     "C13": {
         "level": "exploration",
@@ -346,8 +346,8 @@ PROPS = {
                 "on/ceiling/header) resp. (dup thresholds, spec level)",
         "assumptions": COMMON_ASSUMPTIONS + ["syslog: unix datagram sockets only (no TCP/UDP, no "
                                              "real daemon)"],
-        "quick": box(16, 300, 25, floor_evaluations=200, floor_shapes=20),
-        "thorough": box(16, 8000, 420, floor_evaluations=2000, floor_shapes=40),
+        "quick": box(16, 600, 25, floor_evaluations=200, floor_shapes=20),
+        "thorough": box(16, 20000, 420, floor_evaluations=2000, floor_shapes=40),
     },
     "C20": {
         "level": "exploration",
@@ -374,8 +374,8 @@ PROPS = {
                 "clock kind, recursion) resp. (primary kind, std mode, recursion, formats)",
         "assumptions": COMMON_ASSUMPTIONS + ["time zones: UTC, Asia/Kolkata, America/Caracas, "
                                              "Asia/Kathmandu per shard"],
-        "quick": box(16, 400, 25, floor_evaluations=200, floor_shapes=20),
-        "thorough": box(16, 12000, 420, floor_evaluations=2000, floor_shapes=50),
+        "quick": box(16, 1500, 25, floor_evaluations=200, floor_shapes=20),
+        "thorough": box(16, 150000, 420, floor_evaluations=2000, floor_shapes=50),
     },
     "C03": {
         "level": "exploration",
@@ -422,7 +422,7 @@ PROPS = {
                 "stdout/stderr; non-trivial iff the ending operation is asserted for the mode; "
                 "distinct = (output, write mode, ending op, volume buckets, threads, slowed writer)",
         "assumptions": COMMON_ASSUMPTIONS,
-        "quick": box(16, 400, 25, floor_evaluations=200, floor_shapes=20),
+        "quick": box(16, 600, 25, floor_evaluations=200, floor_shapes=20),
         "thorough": box(16, 12000, 420, floor_evaluations=2000, floor_shapes=50),
     },
     "C10": {
@@ -450,8 +450,8 @@ PROPS = {
                 "recursion child per primary writer kind (1/8, 11 kinds); non-trivial iff at least "
                 "one API call was made under the oracle; distinct = shape keys per kind",
         "assumptions": COMMON_ASSUMPTIONS,
-        "quick": box(16, 500, 25, floor_evaluations=200, floor_shapes=20),
-        "thorough": box(16, 16000, 480, floor_evaluations=2000, floor_shapes=40),
+        "quick": box(16, 800, 25, floor_evaluations=200, floor_shapes=20),
+        "thorough": box(16, 200000, 480, floor_evaluations=2000, floor_shapes=40),
     },
     "C11": {
         "level": "fault_enumeration",
